@@ -149,6 +149,87 @@ def check_select_progs(quiv):
     return {"runs": len(SELECT_PROGS), "failures": fails}
 
 
+def run_repl(quiv, lines, timeout=30):
+    """Feeds the lines to `quiv repl` on stdin (one evaluation per line); returns the printed lines."""
+    try:
+        p = subprocess.run([quiv, "repl"], input="\n".join(lines) + "\n", capture_output=True, text=True, timeout=timeout)
+    except subprocess.TimeoutExpired as e:
+        err = (e.stderr or b"")
+        err = err.decode(errors="replace") if isinstance(err, bytes) else err
+        return {"timeout": True, "stderr": err[-400:]}
+    out = [x.strip() for x in p.stdout.strip().split("\n")]
+    return {"rc": p.returncode, "lines": out, "value": out[-1] if out else "", "stderr": p.stderr[-400:]}
+
+
+# ---- C06 through the REPL: programs that need more than one evaluation (name, lines, expected last line) ----------
+HEAP_REPL_PROGS = [
+    ("a temporary binary sent as the very last thing of an evaluation, then received and awaited in the next one",
+     ["p = @#{ !#'bin }", "[0x0a1b, 0x2c3d] __binary_concat__ p", "!p"], "0x0a1b2c3d"),
+    ("the same with a second runtime binary allocated in between",
+     ["p = @#{ !#'bin }", "[0x0a1b, 0x2c3d] __binary_concat__ p", "x = [0xffff, 0xeeee] __binary_concat__", "!p"], "0x0a1b2c3d"),
+]
+
+
+def check_heap_repl_progs(quiv):
+    fails = []
+    for name, lines, expect in HEAP_REPL_PROGS:
+        r = run_repl(quiv, lines)
+        why = None
+        if r.get("timeout"):
+            why = "timed out (worker panic or hang)"
+        elif r.get("value") != expect:
+            why = "the last evaluation printed %r, expected %r" % (r.get("value"), expect)
+        if why:
+            fails.append({"program": name, "source": " ;; ".join(lines), "why": why})
+    return {"runs": len(HEAP_REPL_PROGS), "failures": fails}
+
+
+# ---- C15: failures are contained and reach the awaiters (name, source, expected value or None, expected error text) ----
+_IO_FILE = "/tmp/verif_c15_corpus.txt"
+FAIL_PROGS = [
+    ("an awaited process fails: the awaiter fails with the same error", "#{ p = @#{ [1, 0] __integer_divide__ }, !p }", None, "Division by zero"),
+    ("awaiter of an awaiter of a failed process", "#{ a = @#{ [1, 0] __integer_divide__ }, b = @#{ !a }, !b }", None, "Division by zero"),
+    ("a process that does not await the failed one runs to its result", "#{ a = @#{ [1, 0] __integer_divide__ }, b = @#{ 7 }, !b }", "7", None),
+    ("late await of a process that has already failed", "#{ a = @#{ [1, 0] __integer_divide__ }, s = ! [100], !a }", None, "Division by zero"),
+    ("failure inside a receive filter fails the selecting process only", "#{ p = @#{ ! [#'int { =n => [n, 0] __integer_divide__ }] }, q = @#{ 9 }, 5 p, !q }", "9", None),
+]
+
+
+def _effect_failure_progs():
+    """The awaiter must sit on the same worker as the failing process; process ids are dealt round-robin over one worker
+    per CPU, so the number of filler processes in front decides the placement.  Several counts are tried (on the clean
+    tree every one of them must yield the error)."""
+    out = []
+    for n in sorted({0, 1, 3, 7, 15, max(0, (os.cpu_count() or 1) - 1)}):
+        fill = "".join(" f%d = @#{ 0 }," % i for i in range(n))
+        out.append(("a process whose effect fails with %d other processes spawned before it: the awaiter gets that error, not a value" % n,
+                    "#{" + fill + " reader = @#{ file = [\"" + _IO_FILE + "\" .0, 0, 0] __file_open__, file __file_close__, [file, 0, 1024] __file_read__ }, !reader }",
+                    None, "Resource 1 not found"))
+    return out
+
+
+def check_fail_progs(quiv):
+    try:
+        with open(_IO_FILE, "w") as fh:
+            fh.write("hello\n")
+    except OSError:
+        pass
+    fails = []
+    progs = FAIL_PROGS + _effect_failure_progs()
+    for name, src, expect, experr in progs:
+        r = run_prog(quiv, src, timeout=30)
+        why = None
+        if r.get("timeout"):
+            why = "timed out (a worker panic or a lost failure notification shows up as a hang)"
+        elif expect is not None and (r.get("rc") != 0 or r.get("value") != expect):
+            why = "evaluated to %r (rc %s, %s), expected %r" % (r.get("value"), r.get("rc"), r.get("stderr", "")[-120:], expect)
+        elif experr is not None and (r.get("rc") == 0 or experr not in r.get("stderr", "")):
+            why = "expected the runtime error %r, got rc %s value %r stderr %r" % (experr, r.get("rc"), r.get("value"), r.get("stderr", "")[-160:])
+        if why:
+            fails.append({"program": name, "source": src, "why": why})
+    return {"runs": len(progs), "failures": fails}
+
+
 def check_eq_progs(quiv):
     fails = []
     for name, src, expect in EQ_PROGS:
@@ -210,7 +291,15 @@ def search(prop):
         return check_eq_progs(quiv)
     if prop == "C05":
         return check_select_progs(quiv)
-    return check_heap_progs(quiv)
+    if prop == "C15":
+        # of the heap corpora only crashes count here (a count that drifts is a debug-build worker panic; wrong bytes are C06's)
+        hp = [check_heap_progs(quiv), check_heap_repl_progs(quiv)]
+        for r in hp:
+            r["failures"] = [f for f in r["failures"] if f["why"].startswith("timed out") or f["why"].startswith("run failed")]
+        reps = [check_fail_progs(quiv)] + hp
+    else:
+        reps = [check_heap_progs(quiv), check_heap_repl_progs(quiv)]
+    return {"runs": sum(r["runs"] for r in reps), "failures": [f for r in reps for f in r["failures"]]}
 
 
 _ALL_CACHE = {}
@@ -223,7 +312,7 @@ def search_all():
         quiv = build_quiv()
         fails = []
         runs = 0
-        for rep in (check_heap_progs(quiv), check_eq_progs(quiv), check_select_progs(quiv), check_tail_shapes(quiv)):
+        for rep in (check_heap_progs(quiv), check_heap_repl_progs(quiv), check_fail_progs(quiv), check_eq_progs(quiv), check_select_progs(quiv), check_tail_shapes(quiv)):
             fails.extend(rep["failures"])
             runs += rep["runs"]
         _ALL_CACHE["r"] = {"runs": runs, "failures": fails}
